@@ -411,6 +411,115 @@ def unit_conv(ty, to, shape, X):
     return u
 
 
+def const_grid(ty, rng, with_pow=False, inner=1):
+    """constants for the constant operand shape: every power-of-two boundary 2^k-1, 2^k+1 (and 2^k itself when with_pow) for
+    k = 1..width, `inner` random ODD values strictly inside every (2^k, 2^(k+1)), their negatives for signed types, and 0, +-1,
+    MIN, MAX"""
+    lo, hi = rng_of(ty)
+    bits, signed = TYPES[ty]
+    s = [0, 1, -1, lo, hi, lo + 1, hi - 1]
+    for k in range(1, bits + 1):
+        vs = [(1 << k) - 1, (1 << k) + 1]
+        if with_pow:
+            vs.append(1 << k)
+        for _ in range(inner):
+            if k >= 2:
+                vs.append(rng.randrange((1 << k) + 1, 1 << (k + 1), 2))
+        for v in vs:
+            s.append(v)
+            if signed:
+                s.append(-v)
+    return list(dict.fromkeys(v for v in s if lo <= v <= hi))
+
+
+def runtime_operands(ty, rng, n_odd=4):
+    """run-time operands paired with the constants: MIN/MAX neighbourhood, the sign boundary 2^(w-1) +- 1, 0, +-1, random odd values
+    of full width (products with them exercise the low bit of results beyond 2^53)"""
+    lo, hi = rng_of(ty)
+    bits, signed = TYPES[ty]
+    half = 1 << (bits - 1)
+    s = [0, 1, -1, 2, lo, lo + 1, hi, hi - 1, half - 1, half, half + 1, -half + 1, 3, -3]
+    for _ in range(n_odd):
+        s.append(rng.randrange(half // 2, hi + 1) | 1)
+        if signed:
+            s.append(-(rng.randrange(half // 2, hi + 1) | 1))
+    return list(dict.fromkeys(v for v in s if lo <= v <= hi))
+
+
+def unit_constgrid(ty, opname, sym, consts, rts):
+    """constant operand shape on the constant grid: `a op C` (constant on the right) and `C op b` (constant on the left) for every
+    constant of `consts` and every run-time operand of `rts`"""
+    u = Unit(new_uid(), ty, "const", "bin %s constgrid" % opname)
+    need_rec = opname in ("quo", "rem")
+    hdr = "(s string) { defer rec(&s); return " if need_rec else "string { return "
+    id_ = u.uid
+    src = arr(id_ + "_T", ty, rts)
+    cr = [c for c in consts if not (need_rec and c == 0)]
+    fr, fl = [], []
+    for j, c in enumerate(cr):
+        src += "func %s_r%d(a %s) %ss_%s(a %s %s) }\n" % (id_, j, ty, hdr, ty, sym, lit(ty, c))
+        fr.append("%s_r%d" % (id_, j))
+    for i, c in enumerate(consts):
+        src += "func %s_l%d(b %s) %ss_%s(%s %s b) }\n" % (id_, i, ty, hdr, ty, lit(ty, c), sym)
+        fl.append("%s_l%d" % (id_, i))
+    src += "var %s_R = [...]func(%s) string{%s}\n" % (id_, ty, ", ".join(fr))
+    src += "var %s_L = [...]func(%s) string{%s}\n" % (id_, ty, ", ".join(fl))
+    src += ("func %s() {\n\tprintln(\"#%s\")\n\tfor j := 0; j < len(%s_R); j++ {\n\t\tl := \"\"\n\t\tfor i := 0; i < len(%s_T); i++ {\n"
+            "\t\t\tl += %s_R[j](%s_T[i]) + \" \"\n\t\t}\n\t\tprintln(l)\n\t}\n"
+            "\tfor j := 0; j < len(%s_L); j++ {\n\t\tl := \"\"\n\t\tfor i := 0; i < len(%s_T); i++ {\n"
+            "\t\t\tl += %s_L[j](%s_T[i]) + \" \"\n\t\t}\n\t\tprintln(l)\n\t}\n}\n") % (
+                id_, id_, id_, id_, id_, id_, id_, id_, id_, id_)
+    u.src = src
+    u.cases = ["num bin %s %s %d %d" % (ty, opname, a, c) for c in cr for a in rts]
+    u.cases += ["num bin %s %s %d %d" % (ty, opname, c, b) for c in consts for b in rts]
+    u.est = len(u.cases) * tok_len(ty) + 200
+    return u
+
+
+def unit_shiftconstgrid(ty, opname, sym, consts, cty, N):
+    """`T(C) << n` / `T(C) >> n`: constant shifted operand from the constant grid, run-time count"""
+    u = Unit(new_uid(), ty, "const", "sh %s constgrid count=%s" % (opname, cty))
+    id_ = u.uid
+    need_rec = TYPES[cty][1]
+    hdr = "(s string) { defer rec(&s); return " if need_rec else "string { return "
+    src = arr(id_ + "_N", cty, N)
+    fl = []
+    for i, c in enumerate(consts):
+        src += "func %s_l%d(n %s) %ss_%s(%s %s n) }\n" % (id_, i, cty, hdr, ty, lit(ty, c), sym)
+        fl.append("%s_l%d" % (id_, i))
+    src += "var %s_L = [...]func(%s) string{%s}\n" % (id_, cty, ", ".join(fl))
+    src += ("func %s() {\n\tprintln(\"#%s\")\n\tfor j := 0; j < len(%s_L); j++ {\n\t\tl := \"\"\n\t\tfor i := 0; i < len(%s_N); i++ {\n"
+            "\t\t\tl += %s_L[j](%s_N[i]) + \" \"\n\t\t}\n\t\tprintln(l)\n\t}\n}\n") % (id_, id_, id_, id_, id_, id_)
+    u.src = src
+    u.cases = ["num sh %s %s v %d %d" % (ty, opname, c, n) for c in consts for n in N]
+    u.est = len(u.cases) * tok_len(ty) + 200
+    return u
+
+
+def chunks(l, per):
+    per = max(1, per)
+    return [l[i:i + per] for i in range(0, len(l), per)]
+
+
+def constgrid_units(ty, rng, ops, thorough, shifts=True):
+    """the constant-shape units on the full constant grid for the operators `ops` (names) of type ty"""
+    units = []
+    consts = const_grid(ty, rng, with_pow=thorough, inner=2 if thorough else 1)
+    rts = runtime_operands(ty, rng, n_odd=6 if thorough else 2)
+    per = max(4, (100000 // tok_len(ty)) // (2 * len(rts)))
+    for opname, sym in BINOPS:
+        if opname in ops:
+            for cs in chunks(consts, per):
+                units.append(unit_constgrid(ty, opname, sym, cs, rts))
+    if shifts:
+        N = [0, 1, 7, 8, 15, 16, 31, 32, 33, 63, 64, 65]
+        for opname, sym in SHOPS:
+            if opname in ops:
+                for cs in chunks(consts, (100000 // tok_len(ty)) // len(N)):
+                    units.append(unit_shiftconstgrid(ty, opname, sym, cs, "uint", N))
+    return units
+
+
 def count_values(cty, rng, full):
     lo, hi = rng_of(cty)
     base = [0, 1, 2, 7, 8, 15, 16, 24, 31, 32, 33, 63, 64, 65, 100, 127, 128, 255, 256, 65535, 65536, (1 << 31) - 1,
@@ -473,6 +582,83 @@ def gen_units(tier, rng, only_types=None):
                 for opname, sym in SHOPS:
                     for xs in chunk_rows(xs_sh, N, tok_budget // 2):
                         units.append(unit_shift(ty, opname, sym, shape, xs, cty, N))
+            if shape == "const":
+                units += constgrid_units(ty, rng, set(o for o, _ in BINOPS + SHOPS), thorough)
+            groups[(ty, shape)] = units
+    return groups
+
+
+OP_OF_TOKEN = {"token.ADD": ["add"], "token.SUB": ["sub"], "token.MUL": ["mul"], "token.QUO": ["quo"], "token.REM": ["rem"],
+               "token.AND": ["and"], "token.OR": ["or"], "token.XOR": ["xor"], "token.AND_NOT": ["andnot"],
+               "token.SHL": ["shl"], "token.SHR": ["shr"], "token.EQL": ["eql", "neq"], "token.NEQ": ["neq"],
+               "token.LSS": ["lss"], "token.LEQ": ["leq"], "token.GTR": ["gtr"], "token.GEQ": ["geq"]}
+ALL_OPS = [o for o, _ in BINOPS + CMPOPS + SHOPS + UNOPS] + ["conv"]
+
+
+def affected_of(changed):
+    """(types, operator names) touched by the changed table entries [(sec, case, guard, text)]"""
+    types, ops = set(), set()
+    for sec, cas, _, _ in changed:
+        if sec in ("bin", "un"):
+            types |= set(SMALL)
+        elif sec in ("bin64",):
+            types |= set(BIG)
+        else:           # fix, conv, pred, extractor, bincomplex, unknown sections: everything
+            types |= set(TYPES)
+        toks = [t.strip() for t in cas.split(",")]
+        got = [o for t in toks for o in OP_OF_TOKEN.get(t, [])]
+        if sec == "un":
+            got = [{"sub": "neg", "xor": "not"}.get(o, o) for o in got]
+        if sec in ("bin", "bin64", "un") and got:
+            ops |= set(got)
+        else:
+            ops |= set(ALL_OPS)
+    return types, ops
+
+
+def gen_units_widened(rng, types, ops):
+    """the widened search after a broken table obligation: for the affected (type, operator)s all 8-bit operand pairs in all three
+    shapes, the complete boundary grid squared plus random pairs for 16-bit and wider types, and the full constant grid (every
+    2^k, 2^k +- 1, two inner values per (2^k, 2^(k+1))) on both sides against the extended run-time operands"""
+    groups = {}
+    binops = [(o, s_) for o, s_ in BINOPS if o in ops]
+    cmpops = [(o, s_) for o, s_ in CMPOPS if o in ops]
+    shops = [(o, s_) for o, s_ in SHOPS if o in ops]
+    unops = [(o, s_) for o, s_ in UNOPS if o in ops]
+    for ty in TYPES:
+        if ty not in types:
+            continue
+        bits = TYPES[ty][0]
+        tok_budget = 140000 // tok_len(ty)
+        for shape in ("var", "nested", "const"):
+            units = []
+            if bits == 8:
+                lo, hi = rng_of(ty)
+                X = list(range(lo, hi + 1))
+                Y = X
+            else:
+                X = list(dict.fromkeys(boundary(ty) + values(ty, rng, 24)))
+                Y = list(dict.fromkeys(boundary(ty) + values(ty, rng, 24)))
+            for opname, sym in binops:
+                for xs in chunk_rows(X, Y, tok_budget // (2 if shape == "const" else 1)):
+                    units.append(unit_bin(ty, opname, sym, shape, xs, Y))
+            for opname, sym in cmpops:
+                for xs in chunk_rows(X, Y, 60000):
+                    units.append(unit_bin(ty, opname, sym, shape, xs, Y, cmp=True))
+            if shape != "const":
+                for opname, sym in unops:
+                    units.append(unit_un(ty, opname, sym, shape, X))
+                if "conv" in ops:
+                    for to in TYPES:
+                        units.append(unit_conv(ty, to, shape, X))
+            xs_sh = X if bits > 8 else X[::3] + [X[-1]]
+            for cty in ["uint", "uint64", "uint8", "int"]:
+                N = count_values(cty, rng, True)
+                for opname, sym in shops:
+                    for xs in chunk_rows(xs_sh, N, tok_budget // 2):
+                        units.append(unit_shift(ty, opname, sym, shape, xs, cty, N))
+            if shape == "const":
+                units += constgrid_units(ty, rng, set(o for o, _ in binops + shops), True)
             groups[(ty, shape)] = units
     return groups
 
